@@ -24,6 +24,7 @@ type feedOpts struct {
 	nextByte             bool
 	onlyValidBases       bool
 	noDepthSites         bool
+	depthSitesLite       bool // a 16-document subset (for expensive per-input checks)
 }
 
 var defaultNestDepths = []int{1, 2, 3, 5, 17, 64, 9998, 9999, 10000, 10001, 10002, 20000}
@@ -153,6 +154,9 @@ func (e *env) feed(o feedOpts, f inputFn) {
 						for _, cl := range []int{d, 0} {
 							idx++
 							if !cfg.Mine(idx) {
+								continue
+							}
+							if o.depthSitesLite && !cfg.Thorough() && (len(pat) > 2 || sib || d == 9999 || len(bottom) > 1 || cl == 0) {
 								continue
 							}
 							doc := gen.NestSpec{Depth: d, Pattern: pat, Close: cl, Bottom: bottom, Sibling: sib}.Build()
